@@ -7,18 +7,40 @@ array with the stored arrays (and with the caller's resampling array) is compare
 ownership model predicts (`own.get`, `own.minima`), results of a repeated call are compared, the four GUI computations
 are run in real threads against their sequential results, and `vars(copy)` is compared with `vars(original)` over *all*
 instance attributes (so that a new, uncopied attribute is noticed).
+
+Copies are examined as *cases* described by a JSON dictionary (so that every failing one can be replayed):
+  kind="copy"  a series on one of several time grids (dyadic, non-uniform, decimal + 1/3, accumulated 0.1, sub-microsecond
+               offset, random, given as datetime objects) x date-time reference (none / whole second / with microseconds) x
+               a *history* of queries made on the source before the copy is taken (the lazily filled date-time cache, get with
+               options, statistics, extremes, spectrum ...) x the way of copying (copy(), copy.copy, copy(newname), deep
+               TsDB.copy, deep TsDB.update);
+  kind="db"    a database backed by one or more files (.ts .dat .pkl .h5) of which an arbitrary subset of the series has
+               been read (preloaded) when the copy is taken, plus series added in memory, copied / updated deep or shallow,
+               whole or for a selection of names given in non-file order.
+Each case is evaluated by `check_copy_case` / `check_db_case`, which return the clauses of the property that fail; an
+exception raised by the implementation inside a case is a failing clause, not a crash of the harness.
 """
+import contextlib
 import copy as pycopy
+import io
 import itertools
+import os
+import random
+import shutil
+import tempfile
 import threading
+import traceback
 
 import numpy as np
 
 from .. import core
 
 RULE = ("all 72 combinations of (window, resample none/step/array, taper, filter kind incl. none, smoothing) x uniform / non-uniform "
-        "series x 12 query methods; 4 GUI computations x real threads; deep / shallow copies of series and databases; "
-        "non-trivial = any option set or threaded run; distinct by (series kind, options, method)")
+        "series x 12 query methods (each also with the stored arrays made read-only); 4 GUI computations x real threads; "
+        "series copies: 7 time grids x 3 date-time references x query histories ([], [dtg_time], random) x 5 ways of copying; "
+        "database copies: file-backed (.ts .dat .pkl .h5, 1-2 files) with every kind of preloaded subset (none / some / all) "
+        "+ in-memory series x copy / update x deep / shallow x all names / selection in non-file order; "
+        "non-trivial = any option set, threaded run, non-empty history or file-backed database; distinct by the case dictionary")
 
 
 def freeze(v):
@@ -36,9 +58,9 @@ def freeze(v):
         return repr(v)
 
 
-def snap(ts):
+def snap(ts, skip=()):
     return dict(t=ts.t.tobytes(), x=ts.x.tobytes(), tid=id(ts._t), xid=id(ts.x),
-                attrs={k: freeze(v) for k, v in vars(ts).items() if k not in ("_t", "x")})
+                attrs={k: freeze(v) for k, v in vars(ts).items() if k not in ("_t", "x") and k not in skip})
 
 
 def arrays_in(res):
@@ -53,7 +75,13 @@ def arrays_in(res):
 
 def same(a, b):
     if isinstance(a, np.ndarray) or isinstance(b, np.ndarray):
-        return isinstance(a, np.ndarray) and isinstance(b, np.ndarray) and a.shape == b.shape and np.array_equal(a, b, equal_nan=True)
+        if not (isinstance(a, np.ndarray) and isinstance(b, np.ndarray) and a.shape == b.shape):
+            return False
+        if a.dtype.kind in "fc" and b.dtype.kind in "fc":
+            return bool(np.array_equal(a, b, equal_nan=True))
+        if a.dtype == object or b.dtype == object:      # e.g. arrays of datetime objects (np.isnan is not defined for those)
+            return same(a.tolist(), b.tolist())
+        return bool(np.array_equal(a, b))
     if isinstance(a, (tuple, list)):
         return isinstance(b, (tuple, list)) and len(a) == len(b) and all(same(x, y) for x, y in zip(a, b))
     if isinstance(a, dict):
@@ -90,6 +118,390 @@ def call(ts, method, kw):
     if method == "stats":
         return ts.stats(include_sample=True, **kw)
     return getattr(ts, method)(**kw)
+
+
+# ======================================================================================================================
+#  copy cases
+# ======================================================================================================================
+GRIDS = ["half", "nonuni", "third", "accum", "submicro", "random", "datetime"]
+DTGS = ["none", "sec", "usec"]
+HOWS = ["copy()", "copy.copy", "copy(newname)", "TsDB.copy", "TsDB.update"]
+HIST_OPS = ["dtg_time", "dtg_start", "dtg_end", "get", "get_twin", "get_resample", "get_filter", "stats", "maxima", "minima",
+            "psd", "rfc", "mean", "dt", "is_constant_dt", "data"]
+FORMATS = [".ts", ".dat", ".pkl", ".h5"]
+# public read-only views of a series; a copy must show the same values as its source
+PROPS = ["name", "kind", "unit", "parent", "dtg_ref", "n", "start", "end", "dt", "duration", "dtg_start", "dtg_end", "fullname",
+         "is_constant_dt", "dtg_time"]
+CACHE = ("_dtg_time",)      # lazily filled cache of dtg_time: compared through the property, not as a raw attribute
+
+
+def quiet(f, *a, **k):
+    with contextlib.redirect_stdout(io.StringIO()):
+        return f(*a, **k)
+
+
+def build_series(spec):
+    """deterministic series from its JSON description dict(name, grid, dtg, n, seed)"""
+    from qats import TimeSeries
+    from datetime import datetime, timedelta
+    r = random.Random(spec["seed"])
+    n, g = spec["n"], spec["grid"]
+    ref = {"none": None, "sec": datetime(2020, 1, 2, 3, 4, 5), "usec": datetime(2021, 6, 7, 8, 9, 10, 123457)}[spec["dtg"]]
+    if g == "half":
+        t = np.arange(n) * 0.5
+    elif g == "nonuni":
+        t = np.cumsum(np.array([r.choice([0.25, 0.5, 0.75]) for _ in range(n)]))
+    elif g == "third":          # 0.1 s sampling, instants neither dyadic nor whole microseconds
+        t = np.linspace(0., 0.1 * (n - 1), n) + 1. / 3.
+    elif g == "accum":          # accumulated decimal step (0.30000000000000004 ...)
+        t = np.cumsum(np.full(n, 0.1))
+    elif g == "submicro":       # offset below the resolution of datetime objects
+        t = np.arange(n) * 0.05 + 4.e-7
+    elif g == "random":
+        t = np.cumsum(np.array([r.uniform(0.05, 0.4) for _ in range(n)])) + r.uniform(0., 100.)
+    elif g == "datetime":       # time given as datetime objects
+        base = (ref or datetime(2019, 5, 6, 7, 8, 9, 250000)) + timedelta(seconds=5)
+        us = np.cumsum([r.randrange(200000, 300000) for _ in range(n)])
+        t = np.array([base + timedelta(microseconds=int(u)) for u in us])
+    else:
+        raise ValueError(g)
+    k = np.arange(n)
+    x = np.sin(0.3 * k) + 0.5 * np.sin(1.1 * k + 1) + np.array([r.uniform(-0.2, 0.2) for _ in range(n)]) + 5.
+    return TimeSeries(spec.get("name", "s"), t, x, parent=spec.get("parent", "/some/file.ts"), dtg_ref=ref, kind="force", unit="kN")
+
+
+def apply_hist(ts, op):
+    """one pure query of the history; the answer is discarded"""
+    t = ts.t
+    n = t.size
+    if op in ("dtg_time", "dtg_start", "dtg_end", "dt", "is_constant_dt", "data"):
+        return getattr(ts, op)
+    if op == "get":
+        return ts.get()
+    if op == "get_twin":
+        return ts.get(twin=(float(t[n // 5]), float(t[-(n // 5) - 1])))
+    if op == "get_resample":
+        return ts.get(resample=0.8 * float(np.mean(np.diff(t))))
+    if op == "get_filter":
+        dt = float(np.mean(np.diff(t)))
+        return ts.get(filterargs=("lp", 0.2 / dt), taperfrac=0.1, resample=dt)
+    if op == "stats":
+        return ts.stats()
+    if op == "maxima":
+        return ts.maxima(rettime=True)
+    if op == "minima":
+        return ts.minima(rettime=True, local=True)
+    if op == "psd":
+        return ts.psd(resample=float(np.mean(np.diff(t))))
+    if op == "rfc":
+        return ts.rfc()
+    if op == "mean":
+        return ts.mean()
+    raise ValueError(op)
+
+
+def run_history(ts, ops, F, inp_note=""):
+    """apply the queries; stored time / data / attributes (apart from the date-time cache) must stay bit-for-bit the same"""
+    before = snap(ts, skip=CACHE)
+    raised = []
+    for op in ops:
+        try:
+            apply_hist(ts, op)
+        except Exception as e:      # a query may refuse its options; that is not a matter of this property
+            raised.append("%s: %s" % (op, type(e).__name__))
+    after = snap(ts, skip=CACHE)
+    if after != before:
+        what = [k for k in ("t", "x", "tid", "xid") if after[k] != before[k]] + \
+               [k for k in before["attrs"] if after["attrs"].get(k) != before["attrs"][k]]
+        F.append(("a sequence of queries leaves the stored time, data and attributes bit-for-bit unchanged" + inp_note, "unchanged", what))
+    return raised
+
+
+def prop_value(ts, p):
+    v = getattr(ts, p)
+    return v
+
+
+COPY_QUERIES = [("get()", lambda s, ref: s.get()),
+                ("get(twin=(start, end) of the source)", lambda s, ref: s.get(twin=(ref.start, ref.end))),
+                ("get(twin=inner window)", lambda s, ref: s.get(twin=(float(ref.t[3]), float(ref.t[-4])))),
+                ("stats()", lambda s, ref: s.stats()),
+                ("max()", lambda s, ref: s.max())]
+
+
+def compare_series(a, b, F, tag, newname=False, queries=True):
+    """clauses `b (copy) equals a (source) in every attribute and array` and `shares no mutable state`, before any mutation"""
+    va, vb = vars(a), vars(b)
+    diff = [k for k in va if k not in CACHE and (k not in vb or not same(va[k], vb[k]))]
+    diff = [k for k in diff if not (k == "name" and newname)]
+    extra = sorted(set(vb) - set(va))
+    if diff or extra:
+        obs = {}
+        for k in diff:
+            if isinstance(va[k], np.ndarray) and isinstance(vb.get(k), np.ndarray) and va[k].shape == vb[k].shape and va[k].dtype.kind == "f":
+                obs[k] = "max abs deviation %.3e" % float(np.max(np.abs(va[k] - vb[k])))
+            else:
+                obs[k] = "%.60r vs %.60r" % (va[k], vb.get(k))
+        F.append(("a copy equals its source in every attribute and array" + tag, "equal", dict(differ=obs, extra=extra)))
+    bad = {}
+    for p in PROPS:
+        if p == "name" and newname or p == "fullname" and newname:
+            continue
+        pa, pb = prop_value(a, p), prop_value(b, p)
+        if not same(pa, pb):
+            bad[p] = "%.50r vs %.50r" % (pa, pb)
+    if bad:
+        F.append(("a copy equals its source in every attribute and array (public properties)" + tag, "equal", bad))
+    if queries:
+        badq = []
+        for nm, q in COPY_QUERIES:
+            try:
+                ra = q(a, a)
+            except Exception:
+                continue                # the query is refused on the source: nothing to compare
+            rb = q(b, a)
+            if not same(ra, rb):
+                badq.append(nm)
+        if badq:
+            F.append(("a copy equals its source in every attribute and array (the same query gives the same answer on both)" + tag,
+                      "equal answers", badq))
+    if a is b:
+        F.append(("a copy shares no mutable state with its source" + tag, "distinct objects", "the very same TimeSeries object"))
+        return
+    if np.shares_memory(a.t, b.t) or np.shares_memory(a.x, b.x):
+        F.append(("a copy shares no mutable state with its source" + tag, "independent arrays", "shared memory"))
+    shared = [k for k, v in vb.items() if isinstance(v, (np.ndarray, list, dict)) and v is va.get(k)]
+    if shared:
+        F.append(("a copy shares no mutable state with its source (mutable attribute objects are not shared)" + tag,
+                  "distinct objects", shared))
+
+
+def mutate_and_watch(a, b, F, tag):
+    """modify the copy b in every way a user can; the source a must not notice"""
+    from datetime import datetime
+    if a is b:
+        return
+    before = snap(a)
+    b.x[0] += 1.0
+    b.x *= 10.
+    b._t[0] -= 1.0
+    b.kind = "changed"
+    b.unit = "changed"
+    if getattr(b, "_dtg_time", None) is not None:
+        b._dtg_time[0] = datetime(1999, 1, 1)
+    try:
+        b.modify(twin=(float(b.t[2]), float(b.t[-3])))
+    except Exception:
+        pass
+    after = snap(a)
+    if after != before:
+        what = [k for k in ("t", "x", "tid", "xid") if after[k] != before[k]] + \
+               [k for k in before["attrs"] if after["attrs"].get(k) != before["attrs"][k]]
+        F.append(("a copy shares no mutable state with its source (modifying the copy leaves the source unchanged)" + tag,
+                  "source unchanged", what))
+
+
+def check_copy_case(inp):
+    """-> list of failing clauses (oracle, expected, observed) for a kind="copy" case"""
+    from qats import TsDB
+    F = []
+    how = inp["how"]
+    ts = build_series(inp["series"])
+    db = None
+    if how.startswith("TsDB"):
+        db = TsDB()
+        db.add(ts)
+        ts = db.get(name=inp["series"].get("name", "s"))
+    run_history(ts, inp["history"], F)
+    if how == "copy()":
+        c = ts.copy()
+    elif how == "copy.copy":
+        c = pycopy.copy(ts)
+    elif how == "copy(newname)":
+        c = ts.copy(newname="other")
+    elif how == "TsDB.copy":
+        c = db.copy().get(name=ts.name)
+    elif how == "TsDB.update":
+        u = TsDB()
+        u.update(db)
+        c = u.get(name=ts.name)
+    else:
+        raise ValueError(how)
+    compare_series(ts, c, F, "", newname=(how == "copy(newname)"))
+    mutate_and_watch(ts, c, F, "")
+    return F
+
+
+# ======================================================================================================================
+#  database cases
+# ======================================================================================================================
+def build_db(inp, root):
+    """file-backed database of the case: -> (db, {name: path or None})"""
+    from qats import TimeSeries, TsDB
+    paths, where = [], {}
+    for i, f in enumerate(inp["files"]):
+        r = random.Random(inp["seed"] * 100 + i)
+        n = f["n"]
+        t = {"half": np.arange(n) * 0.5, "third": np.linspace(0., 0.1 * (n - 1), n) + 1. / 3.}[f["grid"]]
+        src = TsDB()
+        for nm in f["names"]:
+            src.add(TimeSeries(nm, t, np.sin(r.uniform(0.1, 0.5) * t) + r.uniform(1., 5.) + np.array([r.uniform(-.1, .1) for _ in range(n)])))
+        path = os.path.join(root, "f%d%s" % (i, f["fmt"]))
+        quiet(src.export, path, names="*")
+        paths.append(path)
+        for nm in f["names"]:
+            where[nm] = path
+    db = TsDB()
+    if paths:
+        quiet(db.load, paths, read=False)
+    for spec in inp["mem"]:
+        db.add(build_series(spec))
+        where[spec["name"]] = None
+    return db, where
+
+
+def key_of(db, nm):
+    ks = [k for k in db.register_keys if k.replace("\\", "/").split("/")[-1] == nm]
+    assert len(ks) == 1, (nm, db.register_keys)
+    return ks[0]
+
+
+def check_db_case(inp):
+    """-> list of failing clauses for a kind="db" case"""
+    root = tempfile.mkdtemp(prefix="qv10_")
+    try:
+        return _check_db_case(inp, root)
+    finally:
+        shutil.rmtree(root, ignore_errors=True)
+
+
+def _check_db_case(inp, root):
+    from qats import TimeSeries, TsDB
+    F = []
+    db, where = build_db(inp, root)
+    for nm in inp["preload"]:
+        quiet(db.get, name=nm)
+    for nm, ops in inp["history"].items():
+        run_history(quiet(db.get, name=nm), ops, F, " (series %s)" % nm)
+    unread = [nm for nm in where if db.register[key_of(db, nm)] is None]
+    shallow, select = inp["shallow"], inp["select"]
+    expected_keys = list(db.register_keys) if select is None else [key_of(db, nm) for nm in select]
+    keys0 = list(db.register_keys)
+    if inp["how"] == "copy":
+        other = quiet(db.copy, names=select, shallow=shallow)
+    else:
+        other = TsDB()
+        quiet(other.update, db, names=select, shallow=shallow)
+    word = "shallow" if shallow else "deep"
+    if sorted(other.register_keys) != sorted(expected_keys) or sorted(other.register.keys()) != sorted(expected_keys) or \
+            (select is None and list(other.register_keys) != expected_keys):
+        F.append(("a database copy/update holds the selected keys", expected_keys, list(other.register_keys)))
+        return F
+    if list(db.register_keys) != keys0:
+        F.append(("copying a database leaves the keys of the source unchanged", keys0, list(db.register_keys)))
+    for cont in ("register", "register_keys", "register_parent", "register_indices"):
+        if getattr(other, cont) is getattr(db, cont):
+            F.append(("a %s database copy or update shares %s with its source" % (word, "exactly the series objects" if shallow else "no mutable state"),
+                      "distinct containers", "the container `%s` is shared" % cont))
+    for k in expected_keys:
+        nm = k.replace("\\", "/").split("/")[-1]
+        tag = " [series %s, %s when copied]" % (nm, "in memory" if where[nm] is None else ("not yet read" if nm in unread else "preloaded"))
+        b = other.register[k]
+        if b is None:
+            b = quiet(other.get, name=nm)
+        a = quiet(db.get, name=nm)
+        if shallow:
+            if a is not b:
+                F.append(("a shallow database copy or update shares exactly the series objects" + tag, "same object", "different object"))
+            continue
+        if a is b:
+            F.append(("a deep database copy shares no mutable state with its source" + tag, "independent series objects",
+                      "source.get(%r) is copy.get(%r)" % (nm, nm)))
+            continue
+        compare_series(a, b, F, tag)
+        mutate_and_watch(a, b, F, tag)
+        if where[nm] is not None:
+            fresh = quiet(lambda: TsDB.fromfile(where[nm]).get(name=nm))
+            if not (same(fresh.t, a.t) and same(fresh.x, a.x)):
+                F.append(("a deep database copy shares no mutable state with its source (after modifying the copy the source still "
+                          "equals the file)" + tag, "source equals file", "source differs from file"))
+    # the containers are independent: a series added to the copy is not added to the source
+    n0 = len(db.register_keys)
+    other.add(TimeSeries("zz_added_to_copy", np.arange(4.), np.arange(4.)))
+    if len(db.register_keys) != n0 or any(k.endswith("zz_added_to_copy") for k in db.register):
+        F.append(("a %s database copy or update shares only series objects (adding to the copy leaves the source alone)" % word,
+                  "%d keys in source" % n0, "%d keys" % len(db.register_keys)))
+    return F
+
+
+def check_case(inp):
+    """evaluate a copy / db case; an exception raised by the implementation is a failing clause"""
+    try:
+        if inp["kind"] == "copy":
+            return check_copy_case(inp)
+        if inp["kind"] == "db":
+            return check_db_case(inp)
+        raise ValueError(inp["kind"])
+    except Exception as e:
+        tb = traceback.extract_tb(e.__traceback__)
+        loc = ["%s:%d %s" % (os.path.basename(fr.filename), fr.lineno, fr.name) for fr in tb[-3:]]
+        return [("copying and comparing a series / database completes without an exception", "no exception",
+                 dict(exception=repr(e)[:300], where=loc))]
+
+
+def gen_copy_cases(rng, quick):
+    cases = []
+    sid = 0
+    for g in GRIDS:
+        for d in DTGS:
+            hists = [[], ["dtg_time"]]
+            for _ in range(1 if quick else 5):
+                hists.append([rng.choice(HIST_OPS) for _ in range(rng.randint(1, 4))])
+            if not quick:
+                hists.append(list(HIST_OPS))
+            for h in hists:
+                hows = HOWS if (not quick or h == ["dtg_time"]) else rng.sample(HOWS, 2)
+                for how in hows:
+                    sid += 1
+                    cases.append(dict(kind="copy", series=dict(name="s", grid=g, dtg=d, n=rng.choice([12, 40, 75]), seed=sid),
+                                      history=h, how=how))
+    return cases
+
+
+def gen_db_cases(rng, quick):
+    cases = []
+    N = 40 if quick else 400
+    for i in range(N):
+        nfiles = rng.choice([0, 1, 1, 1, 2]) if i >= 8 else 1 + (i % 2)
+        files, names = [], []
+        for f in range(nfiles):
+            nms = ["%s%d" % ("ab"[f], j) for j in range(rng.randint(1, 4))]
+            files.append(dict(fmt=FORMATS[(i + f) % 4] if i < 8 else rng.choice(FORMATS), names=nms, grid=rng.choice(["half", "third"]),
+                              n=rng.choice([8, 30])))
+            names += nms
+        mem = []
+        for j in range(rng.choice([0, 0, 1, 2]) if nfiles else rng.randint(1, 3)):
+            mem.append(dict(name="m%d" % j, grid=rng.choice(GRIDS), dtg=rng.choice(DTGS), n=rng.choice([8, 30]), seed=1000 + i * 10 + j,
+                            parent=None))
+        allnames = names + [m["name"] for m in mem]
+        mode = i % 4 if i < 8 else rng.randrange(4)          # which file series have been read before: none / some / all / some
+        if mode == 0:
+            pre = []
+        elif mode == 2:
+            pre = list(names)
+        else:
+            pre = [nm for nm in names if rng.random() < 0.5]
+        hist = {}
+        for nm in allnames:
+            if (nm in pre or nm.startswith("m")) and rng.random() < 0.4:
+                hist[nm] = [rng.choice(HIST_OPS) for _ in range(rng.randint(1, 3))]
+        select = None
+        if rng.random() < 0.4:
+            select = rng.sample(allnames, rng.randint(1, len(allnames)))
+        cases.append(dict(kind="db", seed=i + 1, files=files, mem=mem, preload=pre, history=hist, select=select,
+                          how=("copy", "update")[(i // 4) % 2] if i < 8 else rng.choice(["copy", "update"]),
+                          shallow=bool(i % 2) if i >= 8 else False if i < 6 else True))
+    return cases
 
 
 def run(chk):
@@ -169,57 +581,25 @@ def run(chk):
                     chk.disagree("own.get", inp, o, "returned time %s the caller's array" % ("is" if is_arg else "is not"))
             if tags["t"] == "stored" or tags["x"] == "stored" or "stored" in tags["writes"]:
                 chk.disagree("own." + m, inp, o, "model predicts access to stored arrays")
-    # ---- copies ------------------------------------------------------------------------------------------------------------------
-    for uniform in (True, False):
-        ts = make_series(rng, uniform, n=50)
-        _ = ts.dtg_time      # populate the lazy cache so that it is part of vars()
-        for c, how in ((ts.copy(), "copy()"), (pycopy.copy(ts), "copy.copy"), (ts.copy(newname="other"), "copy(newname)")):
-            chk.count("copy")
-            inp = dict(uniform=uniform, how=how)
-            va, vb = vars(ts), vars(c)
-            diff = [k for k in va if k not in vb or not same(va[k], vb[k])]
-            diff = [k for k in diff if not (k == "name" and how == "copy(newname)") and k != "_dtg_time"]
-            if diff or set(vb) - set(va):
-                chk.fail("a copy equals its source in every attribute and array", inp, "equal", diff + sorted(set(vb) - set(va)))
-            if not same(list(c.dtg_time), list(ts.dtg_time)):
-                chk.fail("a copy equals its source in every attribute and array (absolute time)", inp, "equal dtg_time", "different")
-            if np.shares_memory(c.t, ts.t) or np.shares_memory(c.x, ts.x):
-                chk.fail("a copy shares no mutable state with its source", inp, "independent arrays", "shared memory")
-            shared = [k for k, v in vars(c).items() if isinstance(v, (np.ndarray, list, dict)) and v is vars(ts).get(k)]
-            if shared:
-                chk.fail("a copy shares no mutable state with its source (mutable attribute objects are not shared)", inp,
-                         "distinct objects", shared)
-            c.x[0] += 1.0
-            c._t[0] -= 1.0
-            c.kind = "changed"
-            if ts.x[0] == c.x[0] or ts.kind == "changed":
-                chk.fail("a copy shares no mutable state with its source", inp, "independent", "source changed with the copy")
-    db = TsDB()
-    for i in range(3):
-        s = make_series(rng, True, n=30)
-        s.name = "s%d" % i
-        db.add(s)
-    for shallow in (False, True):
-        chk.count("db.copy")
-        c = db.copy(shallow=shallow)
-        u = TsDB()
-        u.update(db, shallow=shallow)
-        for other, how in ((c, "copy"), (u, "update")):
-            inp = dict(how=how, shallow=shallow)
-            if list(other.register_keys) != list(db.register_keys):
-                chk.fail("a database copy/update holds the same keys", inp, list(db.register_keys), list(other.register_keys))
-                continue
-            for k in db.register_keys:
-                a, b = db.register[k], other.register[k]
-                if shallow and a is not b:
-                    chk.fail("a shallow database copy or update shares exactly the series objects", inp, "same object", "different object")
-                if not shallow:
-                    if a is b or np.shares_memory(a.x, b.x) or np.shares_memory(a.t, b.t):
-                        chk.fail("a deep database copy shares no mutable state with its source", inp, "independent", "shared")
-                    va, vb = vars(a), vars(b)
-                    diff = [kk for kk in va if kk != "_dtg_time" and not same(va[kk], vb.get(kk))]
-                    if diff:
-                        chk.fail("a deep database copy equals its source in every attribute and array", inp, "equal", diff)
+    # ---- copies of series and databases (cases) ---------------------------------------------------------------------------------
+    cases = [c for c in core.load_corpus("C10") if c.get("kind") in ("copy", "db")]
+    cases += gen_copy_cases(rng, chk.quick) + gen_db_cases(rng, chk.quick)
+    for inp in cases:
+        chk.count(inp["kind"] + "-case")
+        if inp["kind"] == "copy":
+            chk.dist("copy:%s/%s/%s" % (inp["series"]["grid"], inp["series"]["dtg"], inp["how"]))
+            if inp["history"]:
+                chk.nontriv(repr(inp))
+        else:
+            fb = [nm for f in inp["files"] for nm in f["names"]]
+            state = "no-file" if not fb else "none-read" if not inp["preload"] else "all-read" if len(inp["preload"]) == len(fb) else "some-read"
+            chk.dist("db:%s/%s/%s/%s" % (inp["how"], "shallow" if inp["shallow"] else "deep", state, "selection" if inp["select"] else "all"))
+            for f in inp["files"]:
+                chk.dist("format:" + f["fmt"])
+            if fb:
+                chk.nontriv(repr(inp))
+        for oracle, expected, observed in check_case(inp):
+            chk.fail(oracle, inp, expected, observed)
     # ---- the four GUI computations concurrently on the same series ------------------------------------------------------------------
     rounds = 6 if chk.quick else 200
     series = {"a": make_series(rng, True, n=2000), "b": make_series(rng, False, n=1500)}
@@ -262,6 +642,12 @@ def run(chk):
 def replay(rp):
     import random
     inp = rp["input"]
+    if inp.get("kind") in ("copy", "db"):
+        F = check_case(inp)
+        for oracle, expected, observed in F:
+            print("FAILS: %s\n       expected %s, observed %s" % (oracle, expected, observed))
+        print("replay: %d failing clause(s)" % len(F))
+        return 1 if F else 0
     if "method" not in inp:
         print("re-run ./check C10 %s" % rp.get("tier", "quick"))
         return 1
